@@ -90,6 +90,15 @@ def gen(rng):
             g.s += '\\begin{' + env + '}{' + l2 + '}\n'
             g.text(LT[l2], 2)
             g.s += '\n\\end{' + env + '}\n'
+        elif r < 0.62:
+            # a short insertion at the very end of a part, then a hard switch
+            g.text(cur, 1, rng.randint(1, 3))
+            g.foreign(cur, 0)
+            l3 = rng.choice(['german', 'english', 'russian'])
+            g.s += rng.choice(['', ' ', '\n']) + '\\selectlanguage{' + l3 + '}' \
+                + rng.choice([' ', '\n'])
+            cur = LT[l3]
+            g.text(cur, 1)
         else:
             g.text(cur, 2)
         g.s += rng.choice(['\n\n', '\n'])
@@ -102,7 +111,7 @@ def project(r):
     return ('OK', r[1])
 
 
-def run(tier, seed, build, res):
+def _run_own(tier, seed, build, res):
     rng = random.Random(seed)
     res.rule = ('documents with nested language commands (package / class '
                 'options, \\selectlanguage, \\foreignlanguage to depth 2, '
@@ -198,6 +207,12 @@ def run(tier, seed, build, res):
                                                     for lg, t, p in universe.texts_of(im)))
                          else 'text after a nested switch to the same language is '
                               'labelled wrongly or no result: %r' % (im[:2],)))
+
+
+def run(tier, seed, build, res):
+    _run_own(tier, seed, build, res)
+    # snippets of /repo's own tests and their mutations (harness/seeds.py)
+    universe.run_seeds(random.Random(seed + 7), res, project, tier, share=0.6)
 
 
 def replay(payload, build, res):
